@@ -199,15 +199,7 @@ def roundtrip_one(fam, base, plen, port, proto):
     return bad
 
 
-def part_unit():
-    sels, pkts = unit_universe()
-    idx = list(range(len(sels)))
-    chunks = [idx[i::32] for i in range(32)]
-    n = nontrivial = n_true = 0
-    for a, b, c, viol in ck.pmap(unit_pairs, chunks):
-        n, nontrivial, n_true = n + a, nontrivial + b, n_true + c
-        report(viol)
-    # round trips
+def roundtrip_all(_):
     rt = 0
     acc = Acc()
     cases = roundtrip_cases()
@@ -220,9 +212,26 @@ def part_unit():
                             'from_network(%s/%d, %d, %d): %s' % (ipaddress.ip_address(base) if fam == 4 else
                                                                   ipaddress.IPv6Address(base), plen, port, proto, text),
                             dict(part='roundtrip', case=[fam, base, plen, port, proto]))
-    report(acc.dump())
+    return len(cases), rt, acc.dump()
+
+
+def unit_jobs():
+    idx = list(range(len(unit_universe()[0])))
+    return [('unit_pairs', idx[i::4]) for i in range(4)] + [('roundtrip_all', None)]
+
+
+def unit_merge(results):
+    sels, pkts = unit_universe()
+    n = nontrivial = n_true = blocks = rt = 0
+    for kind, res in results:
+        if kind == 'unit_pairs':
+            n, nontrivial, n_true = n + res[0], nontrivial + res[1], n_true + res[2]
+            report(res[3])
+        else:
+            blocks, rt = res[0], res[1]
+            report(res[2])
     return dict(selectors=len(sels), packets=len(pkts), pairs=n, pairs_overlapping_and_distinct=nontrivial,
-                pairs_included=n_true, roundtrip_blocks=len(cases), roundtrips=rt)
+                pairs_included=n_true, roundtrip_blocks=blocks, roundtrips=rt)
 
 
 # ====================================================================== part 2: _get_ipsec_configuration
@@ -377,11 +386,11 @@ def narrow_jobs():
     return jobs
 
 
-def part_narrow():
+def narrow_merge(results):
     jobs = narrow_jobs()
     n = 0
     outcomes = {}
-    for a, o, viol in ck.pmap(narrow_group, [jobs[i::64] for i in range(64)]):
+    for kind, (a, o, viol) in results:
         n += a
         for k, v in o.items():
             outcomes[k] = outcomes.get(k, 0) + v
@@ -676,13 +685,28 @@ def e2e_run(case):
     return outcome, viol, dict(rekeys=rekeys)
 
 
+def precondition(part, case, ex):
+    """a scenario that cannot even be set up (e.g. identical entries do not negotiate, an endpoint dies) is reported,
+    not silently skipped; the signature keeps the kind of failure only"""
+    kind = ''.join(ch for ch in str(ex).split(':')[0].split('(')[0] if not ch.isdigit()).strip().replace(' ', '-')[:60]
+    return 'setup-failed', [('precondition:%s:%s' % (part, kind), 'scenario %r could not be run: %s' % (case, ex),
+                             dict(part=part, case=jenc_case(case)))], None
+
+
+def jenc_case(case):
+    return [list(x) if isinstance(x, tuple) else x for x in case]
+
+
 def e2e_group(cases):
     acc = Acc()
     outcomes = {}
     rekeys = 0
     samples = []
     for c in cases:
-        out, viol, facts = e2e_run(c)
+        try:
+            out, viol, facts = e2e_run(c)
+        except HarnessError as ex:
+            out, viol, facts = precondition('e2e', c, ex)
         outcomes[out] = outcomes.get(out, 0) + 1
         if facts:
             rekeys += facts['rekeys']
@@ -691,21 +715,28 @@ def e2e_group(cases):
     return len(cases), outcomes, rekeys, acc.dump()
 
 
-def part_e2e():
+def e2e_jobs():
     cases = e2e_cases()
     if ck.seed:
         k = ck.seed % len(cases)
         cases = cases[k:] + cases[:k]
+    g = 96 if ck.quick else 256
+    return [('e2e_group', cases[i::g]) for i in range(g)]
+
+
+def e2e_merge(results):
+    cases = e2e_cases()
     n = rekeys = 0
     outcomes = {}
-    for a, o, r, viol in ck.pmap(e2e_group, [cases[i::64] for i in range(64)]):
+    for kind, (a, o, r, viol) in results:
         n += a
         rekeys += r
         for k, x in o.items():
             outcomes[k] = outcomes.get(k, 0) + x
         report(viol)
     if not outcomes.get('accepted') or not rekeys:
-        raise HarnessError('end-to-end part is vacuous: %r rekeys=%d' % (outcomes, rekeys))
+        ck.violation('precondition:e2e:vacuous', 'no negotiation was accepted / no rekey completed: %r rekeys=%d' % (
+            outcomes, rekeys), dict(part='none'))
     return dict(handshakes=n, outcomes=outcomes, rekeys_checked=rekeys, labels=len({e2e_label(*c) for c in cases}))
 
 
@@ -724,6 +755,8 @@ def tamper_ops():
     ops = {
         'identity': ('neutral', lambda l: list(l)),
         'narrow-host': ('neutral', first(lambda s: s._replace(lo=s.lo + 1, hi=s.lo + 1))),
+        'narrow-range': ('neutral', first(lambda s: s._replace(lo=s.lo + 1, hi=s.lo + 2))),     # inside, not a block
+        'port-subrange': ('widen-if-port', first(lambda s: s._replace(plo=22, phi=23))),
         'two-ok-then-beyond': ('extra', lambda l: [l[0], l[0]._replace(lo=V4ALL[0], hi=V4ALL[1])]),
         'addr-lo-1': ('widen', first(lambda s: s._replace(lo=s.lo - 1))),
         'addr-hi+1': ('widen', first(lambda s: s._replace(hi=s.hi + 1))),
@@ -897,22 +930,33 @@ def tamper_run(case):
 def tamper_group(cases):
     out = []
     for c in cases:
-        out.append(tamper_run(c))
+        try:
+            out.append(tamper_run(c))
+        except HarnessError as ex:
+            o, viol, _ = precondition('tamper', c, ex)
+            out.append((repr(c), o, viol))
     return out
 
 
-def part_tamper():
-    cases = tamper_cases()
+def tamper_merge(results):
     outcomes = {}
     n = 0
-    for grp in ck.pmap(tamper_group, [cases[i::32] for i in range(32)]):
+    for kind, grp in results:
         for label, outcome, viol in grp:
             n += 1
             outcomes[outcome] = outcomes.get(outcome, 0) + 1
             report(viol)
     if not outcomes.get('rejected') or not outcomes.get('neutral-installed') or not outcomes.get('rekey-refused'):
-        raise HarnessError('tamper part is vacuous: %r' % outcomes)
+        ck.violation('precondition:tamper:vacuous', 'outcome classes missing: %r' % outcomes, dict(part='none'))
     return dict(cases=n, outcomes=outcomes, ops=sorted(tamper_ops()))
+
+
+def run_job(job):
+    """one work unit of any part (a single process pool serves all parts)"""
+    import time
+    t = time.process_time()
+    kind, arg = job
+    return kind, globals()[kind](arg), time.process_time() - t
 
 
 # ====================================================================== replay / main
@@ -921,6 +965,9 @@ def replay(path):
     doc = jdec(json.load(open(path)))
     part = doc['part']
     res = []
+    if part == 'none':
+        print('this finding is about a whole part of the run (%s); run the check itself' % doc.get('signature'))
+        sys.exit(1)
     if part == 'unit-pair':
         a, b = R.Sel(*doc['a']), R.Sel(*doc['b'])
         _, pkts = unit_universe()
@@ -954,11 +1001,18 @@ def replay(path):
             res = ['refused'] if inside else []
     elif part == 'e2e':
         c = doc['case']
-        out, viol, _ = e2e_run((tuple(c[0]), tuple(c[1]), c[2]))
+        try:
+            out, viol, _ = e2e_run((tuple(c[0]), tuple(c[1]), c[2]))
+        except HarnessError as ex:
+            out, viol, _ = precondition('e2e', c, ex)
         print('outcome:', out)
         res = viol
     elif part == 'tamper':
-        label, out, viol = tamper_run(tuple(doc['case']))
+        try:
+            label, out, viol = tamper_run(tuple(doc['case']))
+        except HarnessError as ex:
+            label = repr(doc['case'])
+            out, viol, _ = precondition('tamper', doc['case'], ex)
         print('outcome:', label, out)
         res = viol
     for r in res:
@@ -970,16 +1024,25 @@ def replay(path):
 def main():
     if ck.args.replay:
         replay(ck.args.replay)
-    import time
-    walls = {}
-    parts = {}
-    for name, fn in (('unit', part_unit), ('narrow', part_narrow), ('e2e', part_e2e), ('tamper', part_tamper)):
-        t = time.time()
-        parts[name] = fn()
-        walls[name] = round(time.time() - t, 1)
-        print('  part %-7s %6.1fs  %s' % (name, walls[name], {k: v for k, v in parts[name].items()
-                                                              if isinstance(v, (int, dict)) and k != 'ts_universe'}))
-    unit, narrow, e2e, tamper = parts['unit'], parts['narrow'], parts['e2e'], parts['tamper']
+    njobs = narrow_jobs()
+    g = 64 if ck.quick else 256
+    tcases = tamper_cases()
+    jobs = (e2e_jobs() + [('narrow_group', njobs[i::g]) for i in range(g)]
+            + [('tamper_group', tcases[i::16]) for i in range(16)] + unit_jobs())
+    done = ck.pmap(run_job, jobs)
+    cpu = {}
+    by = {}
+    for kind, res, t in done:
+        part = {'unit_pairs': 'unit', 'roundtrip_all': 'unit', 'narrow_group': 'narrow', 'e2e_group': 'e2e',
+                'tamper_group': 'tamper'}[kind]
+        by.setdefault(part, []).append((kind, res))
+        cpu[part] = round(cpu.get(part, 0) + t, 1)
+    unit, narrow, e2e, tamper = unit_merge(by['unit']), narrow_merge(by['narrow']), e2e_merge(by['e2e']), \
+        tamper_merge(by['tamper'])
+    for name, part in (('unit', unit), ('narrow', narrow), ('e2e', e2e), ('tamper', tamper)):
+        print('  part %-7s cpu %6.1fs  %s' % (name, cpu[name], {k: v for k, v in part.items()
+                                                                if isinstance(v, (int, dict))}))
+    walls = cpu
     ck.coverage.update(
         evaluations=unit['pairs'] + unit['roundtrips'] + narrow['calls'] + e2e['handshakes'] + tamper['cases'],
         distinct_nontrivial=(unit['pairs_overlapping_and_distinct'] + narrow['calls_with_overlap']
@@ -987,7 +1050,7 @@ def main():
         rule='unit: ordered pairs of different selectors whose packet sets overlap; narrow: calls in which proposal and '
              'some policy entry share packets on both sides; e2e: negotiations that were accepted (each also rekeyed '
              'from both sides); tamper: every rewritten message',
-        exhaustive=True, wall_per_part=walls, unit=unit, narrow=narrow, e2e=e2e, tamper=tamper,
+        exhaustive=True, cpu_seconds_per_part=walls, unit=unit, narrow=narrow, e2e=e2e, tamper=tamper,
         alphabet=dict(unit_addresses=[str(ipaddress.ip_address(BASE[f] + i)) for f in (4, 6) for i in range(4)],
                       unit_port_points=PORT_POINTS, unit_protocols=PROTOS, packet_ports=PKT_PORTS,
                       packet_protocols=PKT_PROTOS, e2e_a_nets=A_NETS, e2e_b_nets=B_NETS),
